@@ -161,7 +161,14 @@ class Gen:
             if not self.f["const_pred"] and not has_col(lhs) and self.cols(scope, INT):
                 a, c, _ = r.choice(self.cols(scope, INT))
                 lhs = ("col", a, c, INT)
-            return ("inl", lhs, vals, r.random() < 0.35, BOOL)
+            neg = r.random() < 0.35
+            if self.f.get("inx", True) and self.cols(scope, INT) and r.random() < 0.3:
+                # a list whose members are columns (and constants)
+                mem = [("col", a, c, INT) for a, c, _ in [r.choice(self.cols(scope, INT)) for _ in range(r.choice([1, 2]))]]
+                if r.random() < 0.5:
+                    mem.insert(r.randrange(len(mem) + 1), ("ci", r.choice([0, 1, 2, 3])))
+                return ("inx", lhs, ("lst",) + tuple(mem) + (INT,), neg, BOOL)
+            return ("inl", lhs, vals, neg, BOOL)
         if p < 0.9 and self.cols(scope, STR) and self.f["like"]:
             a, c, _ = r.choice(self.cols(scope, STR))
             e = ("bin", "like", ("col", a, c, STR), ("cs", r.choice(["a%", "%b", "_", "%", "a_", ""])), BOOL)
@@ -510,6 +517,8 @@ def sql_expr(e):
         return f"(case {sql_expr(e[1])} {arms}{' else ' + sql_expr(e[3]) if e[3] is not None else ''} end)"
     if k == "inl":
         return f"({sql_expr(e[1])} {'not ' if e[3] else ''}in ({', '.join(lit(v) for v in e[2])}))"
+    if k == "inx":
+        return f"({sql_expr(e[1])} {'not ' if e[3] else ''}in ({', '.join(sql_expr(x) for x in e[2][1:-1])}))"
     if k == "insub":
         return f"({sql_expr(e[1])} {'not ' if e[3] else ''}in ({sql_query(e[2])}))"
     if k == "exists":
@@ -654,6 +663,8 @@ def res_expr(e, scopes, tables):
         return ["case"] + [res_expr(x, scopes, tables) for x in e[1:4]]
     if k == "inl":
         return ["in", res_expr(e[1], scopes, tables), [enc(v) for v in e[2]], bool(e[3])]
+    if k == "inx":
+        return ["inx", res_expr(e[1], scopes, tables), [res_expr(x, scopes, tables) for x in e[2][1:-1]], bool(e[3])]
     if k == "insub":
         return ["insub", res_expr(e[1], scopes, tables), res_query(e[2], scopes, tables), bool(e[3])]
     if k == "exists":
